@@ -77,12 +77,17 @@ def elemEq (ps : List Param) (a b : Elem) : Option Bool :=
 /-- indices `K` whose entry in the run table is not SKIP (they depend on the list only) -/
 def keyIdx (tbl : List RunEntry) (n : Nat) : List Nat := (List.range n).filter (fun k => tbl.getD k .skip != .skip)
 
+/-- order-preserving image of an object value (values are carried as the unsigned representation): for a signed integer
+    type of `vb` bytes the two halves of the range are exchanged -/
+def ordVal (p : Param) (v : Nat) : Nat :=
+  if p.ty.signed then (v + 2 ^ (8 * p.vb - 1)) % 2 ^ (8 * p.vb) else v
+
 /-- the comparison key of parameter/run `K` for `operator<`: the object values of a field compared by
     its own `<`, or the bytes of a memcmp run -/
 def ltKey (ps : List Param) (tbl : List RunEntry) (e : Elem) (k : Nat) : List Nat :=
   match tbl.getD k .skip with
   | .upto last => runBytes ps e k last
-  | _ => e.getD k []
+  | _ => (e.getD k []).map (ordVal (ps.getD k default))
 
 def ltKeys (ps : List Param) (e : Elem) : List (List Nat) :=
   (keyIdx (lexTable ps) ps.length).map (ltKey ps (lexTable ps) e)
